@@ -261,7 +261,7 @@ func Jobs(prop, tier string) []Job {
 			k = 1
 		}
 		sc.Starve = starveFor(prop, tier, sc)
-		if v := os.Getenv("VERIF_STARVE"); v != "" && sc.Starve == 0 && sc.Opts.Bound == 0 && !sc.Opts.Unbounded {
+		if v := os.Getenv("VERIF_STARVE"); v != "" && sc.Starve == 0 && (sc.Opts.Bound == 0 || os.Getenv("VERIF_STARVE_D1") != "") && !sc.Opts.Unbounded {
 			// experiment switch: starvation schedules for every deviation-free scenario
 			fmt.Sscan(v, &sc.Starve)
 		}
